@@ -17,8 +17,9 @@
     extraction with separate sources for the instance pass and the feature
     pass) -- tied to /repo by the correspondence run of harness/vp/props/c16.py. *)
 From Coq Require Import List Ascii String ZArith NArith Bool Permutation.
-From Shexer Require Import Lib.PyStr Lib.Dict Gen.Consts Spec.Rdf Spec.Restrict Model.Tracker Model.Freq Model.Run
-     Model.NsFilter Model.Run2 Proofs.RestrictProofs.
+From Shexer Require Import Lib.PyStr Lib.Dict Gen.Consts Spec.Rdf Spec.Restrict Spec.Counts Model.Tracker Model.Profiler
+     Model.Freq Model.Shexing Model.Run Model.NsFilter Model.Run2 Proofs.ProfileChar Proofs.ShexKeys Proofs.EndToEnd Proofs.RestrictProofs
+     Proofs.RestrictCompose.
 Import ListNotations.
 
 (** ** (cap1) the instances of every class are exactly its first k, in both target modes.
@@ -99,6 +100,48 @@ Print Assumptions C16_cap_is_restriction_shapes.
 Theorem C16_ids_faithful_of_marked : forall g, (forall n, node_in g n -> bnode_marked n) -> ids_faithful g.
 Proof. exact marked_ids_faithful. Qed.
 Print Assumptions C16_ids_faithful_of_marked.
+
+(** ** all figures of a capped run are exact for the first-k subset
+    (composition with P1, Props/P1.v, and the shexing theorem K3, Props/ShexStage.v).
+    [fig_occ tau I g dir cls p] (Proofs/EndToEnd.v) says where a statement's
+    count comes from: for a type key other than the merged NONLITERAL it is ONE
+    declarative count [occ dir tau I g cls p key card] (Spec/Counts.v) -- over
+    the FULL graph [g], membership of subjects and referenced objects read from
+    the capped dictionary [I], which lists exactly the first k instances of
+    every class; [post_okR] attaches it to the line and to each comment. *)
+Theorem C16_cap_figures_exact : forall fa c thr g ns shapes,
+  (0 < r_cap c)%Z -> NoDup g -> ids_faithful g ->
+  run_shapes fa c thr g = inl (ns, shapes) ->
+  let k := Z.to_nat (r_cap c) in
+  exists I,
+    track (r_tau c) (mode_of c) (r_cap c) g = inl I /\
+    (forall z, (z <= 0)%Z ->
+       track (r_tau c) (mode_of c) z (restrict_typing (r_tau c) (r_targets c) k g) = inl I) /\
+    (forall cl i, In cl (classes_of I i) <-> In i (first_k_instances (r_tau c) (r_targets c) k g cl)) /\
+    forall sh, In sh shapes ->
+      sh_n sh = N.of_nat (Nat.min k (List.length (class_subjects (r_tau c) (r_targets c) g (sh_class sh)))) /\
+      sh_n sh = class_count I (sh_class sh) /\
+      forall st, In st (sh_stmts sh) ->
+        (s_inv st = true -> r_inverse c = true) /\
+        post_okR (scfg_of c ns) (fig_occ (r_tau c) I g (dir_of (s_inv st)) (sh_class sh) (s_prop st)) st.
+Proof. exact cap_figures_exact. Qed.
+Print Assumptions C16_cap_figures_exact.
+
+(** the same statement for the extraction with separate sources (any cap, any
+    instance document [gi]): figures are [occ] over the feature graph [gf]
+    w.r.t. the dictionary tracked on [gi] *)
+Theorem C16_figures_run_shapes2 : forall fa c thr gi gf ns shapes,
+  run_shapes2 fa c thr gi gf = inl (ns, shapes) ->
+  exists I, track (r_tau c) (mode_of c) (r_cap c) gi = inl I /\
+    forall sh, In sh shapes ->
+      In (sh_class sh) (class_keys (targets_of (pcfg_of c)) I) /\
+      sh_name sh = shape_name (r_shapes_ns c) (sh_class sh) /\
+      sh_n sh = class_count I (sh_class sh) /\
+      forall st, In st (sh_stmts sh) ->
+        (s_inv st = true -> r_inverse c = true) /\
+        post_okR (scfg_of c ns) (fig_occ (r_tau c) I gf (dir_of (s_inv st)) (sh_class sh) (s_prop st)) st.
+Proof. exact e2e2_figures. Qed.
+Print Assumptions C16_figures_run_shapes2.
 
 (** ** (cap3) a cap not smaller than every class changes nothing (any document: duplicates, literal objects) *)
 Theorem C16_cap_large_id : forall tau m k g z, (0 < k)%Z -> (z <= 0)%Z ->
